@@ -24,12 +24,12 @@ const c15CreateRole = "ESDTRoleNFTCreate"
 type c15State struct {
 	issued       map[string]uint64 // token -> highest nonce ever returned by a successful ESDTNFTCreate
 	createGiven  map[string]bool   // token -> the create role has been set once (single-creator discipline)
-	filtered     map[string]int
+	reported     map[string]bool   // violating cells already reported in this history (a violation is attributed to the step that introduced it)
 	scans, cells int
 }
 
 func c15NewState() *c15State {
-	return &c15State{issued: map[string]uint64{}, createGiven: map[string]bool{}, filtered: map[string]int{}}
+	return &c15State{issued: map[string]uint64{}, createGiven: map[string]bool{}, reported: map[string]bool{}}
 }
 func (st *c15State) clone() *c15State {
 	n := c15NewState()
@@ -39,7 +39,9 @@ func (st *c15State) clone() *c15State {
 	for k, v := range st.createGiven {
 		n.createGiven[k] = v
 	}
-	n.filtered = st.filtered // counters are shared
+	for k, v := range st.reported {
+		n.reported[k] = v
+	}
 	return n
 }
 
@@ -137,15 +139,17 @@ func (st *c15State) after(sr *stepResult) {
 // ---------------------------------------------------------------------------------------------
 // the scan: the property evaluated directly on the real storage
 // ---------------------------------------------------------------------------------------------
-type c15Violation struct{ class, what string }
+type c15Violation struct{ class, cell, what string }
 
 func c15ScanAccount(shard uint32, a *hAccount, st *c15State) []c15Violation {
 	var out []c15Violation
+	cur := ""
 	bad := func(class, f string, args ...interface{}) {
-		out = append(out, c15Violation{class, fmt.Sprintf("shard %d account %x: ", shard, a.addr) + fmt.Sprintf(f, args...)})
+		out = append(out, c15Violation{class, fmt.Sprintf("%d/%x/%x/%s", shard, a.addr, cur, class), fmt.Sprintf("shard %d account %x: ", shard, a.addr) + fmt.Sprintf(f, args...)})
 	}
 	isSys := bytes.Equal(a.addr, vmcommon.SystemAccountAddress)
 	for _, k := range sortedKeys(a.storage) {
+		cur = k
 		if !strings.HasPrefix(k, "ELROND") {
 			continue
 		}
@@ -237,6 +241,10 @@ func c15Scan(c *ctx, w *hWorld, st *c15State, sr *stepResult, hist []string) {
 	for _, sh := range w.shards {
 		for _, ak := range sortedAccts(sh.accounts) {
 			for _, v := range c15ScanAccount(sh.id, sh.accounts[ak], st) {
+				if st.reported[v.cell] {
+					continue
+				}
+				st.reported[v.cell] = true
 				fn := "initial-state"
 				var rp interface{}
 				if sr != nil {
